@@ -59,7 +59,18 @@ CLAIMED = {
 NOT_YET = "check not built yet in this revision (planned, see DESIGN.md section 4)"
 
 
+def load_plugins():
+    import glob
+    import importlib
+    import sys
+    sys.path.insert(0, os.path.join(ROOT, "lib"))
+    for f in sorted(glob.glob(os.path.join(ROOT, "lib", "props_*.py"))):
+        m = importlib.import_module(os.path.basename(f)[:-3])
+        CLAIMED.update(getattr(m, "MANIFEST", {}))
+
+
 def main():
+    load_plugins()
     checks = []
     for pid in ALL:
         if pid not in CLAIMED:
